@@ -738,13 +738,52 @@ End Decoder.
 Definition decode (unpickler : option unpickle_fn) (bs : bytes) : Outcome (val * heap) :=
   bind (run unpickler (len bs) (S (length bs)) bs dstate0) (fun '(v, st) => Ok (v, d_heap st)).
 
-(** the declared-length hypothesis of C15 as a boolean on the run: no step of the run asks for a string
-    longer than the whole input *)
-Definition lengths_bounded (unpickler : option unpickle_fn) (bs : bytes) : bool :=
-  match run unpickler (len bs) (S (length bs)) bs dstate0 with
-  | Crash => false
-  | _ => true
+(** The declared-length hypothesis of C15 ("declared lengths bounded by the input size"), syntactically:
+    walk the input along opcode boundaries (inline arguments skipped as the decoder skips them, whatever the
+    stack holds) and require every 4-byte declared string length met on the way to be at most [limit]. *)
+Inductive scan_res := SSNext (rest : bytes) | SSStop | SSOver.
+
+Definition drop_bytes (n : nat) (r : bytes) : scan_res :=
+  if Nat.leb n (length r) then SSNext (skipn n r) else SSStop.
+
+Definition scan_step (limit : N) (bs : bytes) : scan_res :=
+  match bs with
+  | [] => SSStop
+  | op :: r =>
+      match classify op with
+      | KBINGET | KBININT1 => drop_bytes 1 r
+      | KBININT2 => drop_bytes 2 r
+      | KLONG_BINGET | KBININT => drop_bytes 4 r
+      | KBINFLOAT => drop_bytes 8 r
+      | KINT => match split_first 10 r with Some (_, r') => SSNext r' | None => SSStop end
+      | KSHORT_BINUNICODE | KSHORT_BINBYTES =>
+          match r with
+          | n :: r' => match takeN r' n with Some (_, r'') => SSNext r'' | None => SSStop end
+          | [] => SSStop
+          end
+      | KBINUNICODE | KBINBYTES =>
+          match r with
+          | b0 :: b1 :: b2 :: b3 :: r' =>
+              if limit <? of_le32 b0 b1 b2 b3 then SSOver
+              else match takeN r' (of_le32 b0 b1 b2 b3) with Some (_, r'') => SSNext r'' | None => SSStop end
+          | _ => SSStop
+          end
+      | KSTOP => SSStop
+      | _ => SSNext r
+      end
   end.
+
+Fixpoint lens_ok (limit : N) (fuel : nat) (bs : bytes) : bool :=
+  match fuel with
+  | O => true
+  | S f => match scan_step limit bs with
+           | SSNext r => lens_ok limit f r
+           | SSStop => true
+           | SSOver => false
+           end
+  end.
+
+Definition lengths_bounded (bs : bytes) : bool := lens_ok (len bs) (S (length bs)) bs.
 
 (* ------------------------------------------------------------------------------------------------ *)
 (** * The object-preserving host pickler/unpickler pair used for C07 (harness: testObj) *)
